@@ -50,6 +50,31 @@ static void family(rng& g, bool thorough, bool dists)
         c.plan = make_plan(g, 97, 4, 9);
         run_plain<T>(c, make_engine(g, 211), sizes);
     }
+    // values in the subnormal range of T (their squares underflow): every non-zero finite evaluation still counts and is summed
+    for (std::size_t d = 1; d <= 2; ++d)
+    {
+        call_ctx<T> c;
+        c.dists = dists;
+        c.cfg.kind = "plain";
+        c.cfg.d = d;
+        c.vexp = std::numeric_limits<T>::min_exponent - std::numeric_limits<T>::digits; // f * denorm_min
+        c.plan = make_plan(g, 61, 4, 9);
+        run_plain<T>(c, make_engine(g, 101), std::vector<std::size_t>{1, 7, 64});
+    }
+    // a valid but extremely non-uniform VEGAS grid in eight dimensions: the weight of a point in the narrow corner underflows to
+    // exactly zero - the point is still sampled and the integrand evaluated
+    {
+        hep::vegas_pdf<T> pdf(8, 2);
+        for (std::size_t j = 0; j != 8; ++j) pdf.set_bin_left(j, 1, std::ldexp(T(1), -(std::numeric_limits<T>::digits + 20)));
+        std::vector<std::uint64_t> sc;
+        for (int call = 0; call != 12; ++call)
+            for (int j = 0; j != 8; ++j) sc.push_back(call % 3 == 0 ? dyadic(1, 2) : (g.below(2) ? dyadic(1, 2) : dyadic(3, 2)));
+        call_ctx<T> c;
+        c.dists = dists;
+        c.cfg.kind = "vegas";
+        c.plan = make_plan(g, 29, 3, 0);
+        run_vegas<T>(c, script_engine(script_registry::add(sc)), pdf, std::vector<std::size_t>{12}, T(1.5));
+    }
     // VEGAS with dyadic user grids (weights exact); alpha > 0 so that later iterations use adapted grids:
     // those iterations are exact only while the grid stays dyadic, otherwise counters only
     for (int gi = 0; gi != 3; ++gi)
